@@ -35,7 +35,7 @@ func VerifC14_glue_verify() {
 	vUnwind(140)
 	vUseModels("edabs")
 	pk := vBytes("pk", 32, 32)
-	msg := vBytesC("msg", 0, vBound("C14_msg_len_v", 1, 64))
+	msg := vBytesC("msg", 0, vBound("C14_msg_len_v", 1, 6))
 	sig := vBytesC("sig", 63, 65)
 	got := Verify(pk, msg, sig)
 	want := stded.Verify(pk, msg, sig)
